@@ -1290,7 +1290,12 @@ impl<'a> Message<'a> {
         src: &Message,
         attributes: &[AttributeType],
     ) -> MessageBuilder<'b> {
-        let mut out = Message::builder_error(src);
+        // not `builder_error()`: that panics when `src` is not a request, and `src` may be any
+        // message received from the network
+        let mut out = Message::builder(
+            MessageType::from_class_method(MessageClass::Error, src.method()),
+            src.transaction_id(),
+        );
         let software = Software::new("stun-types").unwrap();
         out.add_attribute(&software).unwrap();
         let error = ErrorCode::new(420, "Unknown Attributes").unwrap();
@@ -1319,7 +1324,11 @@ impl<'a> Message<'a> {
     /// assert_eq!(error_code.code(), 400);
     /// ```
     pub fn bad_request<'b>(src: &'a Message) -> MessageBuilder<'b> {
-        let mut out = Message::builder_error(src);
+        // not `builder_error()`: that panics when `src` is not a request
+        let mut out = Message::builder(
+            MessageType::from_class_method(MessageClass::Error, src.method()),
+            src.transaction_id(),
+        );
         let software = Software::new("stun-types").unwrap();
         out.add_attribute(&software).unwrap();
         let error = ErrorCode::new(400, "Bad Request").unwrap();
